@@ -5,6 +5,7 @@ package vs
 // code involved.
 
 import (
+	"context"
 	"fmt"
 	"sort"
 	"strings"
@@ -421,4 +422,21 @@ func bgCtx() interface {
 	Value(any) any
 } {
 	return backgroundCtx
+}
+
+func TestWithoutCancelCutsCancellation(t *testing.T) {
+	var derivedErr, parentErr error
+	var at time.Duration
+	Run1(Config{}, func() {
+		parent, cancel := WithTimeout(context.Background(), time.Second)
+		defer cancel()
+		derived, cancel2 := WithTimeout(WithoutCancel(parent), 3*time.Second)
+		defer cancel2()
+		Recv(derived.Done())
+		at = Elapsed()
+		derivedErr, parentErr = derived.Err(), parent.Err()
+	})
+	if at != 3*time.Second || derivedErr == nil || parentErr == nil {
+		t.Fatalf("a context derived from WithoutCancel(parent) ended at %v (want 3s): derived=%v parent=%v", at, derivedErr, parentErr)
+	}
 }
